@@ -13,6 +13,7 @@ from harness.core import Prop, clist
 import porepy as pp
 from porepy.applications.md_grids.model_geometries import (
     CubeDomainOrthogonalFractures,
+    NonMatchingSquareDomainOrthogonalFractures,
     RectangularDomainThreeFractures,
     SquareDomainOrthogonalFractures,
 )
@@ -41,8 +42,35 @@ class ClosedBoundaries:
         return self._neu(sd)
 
 
+class RemeshedInterfaces:
+    """Non-matching grids as the library's own tests build them (tests/models/
+    test_fluid_mass_balance.py): every 1-d mortar grid and the fracture grid are re-meshed with
+    their own numbers of nodes (update_mortar / replace_subdomains_and_interfaces /
+    update_secondary)."""
+
+    def set_geometry(self):
+        super().set_geometry()
+        nm, n1 = self.params["num_nodes_mortar"], self.params["num_nodes_1d"]
+        for intf in self.mdg.interfaces(dim=1):
+            new_side = {s: pp.refinement.remesh_1d(g, num_nodes=nm)
+                        for s, g in intf.side_grids.items()}
+            intf.update_mortar(new_side, tol=1e-4)
+            _, old = self.mdg.interface_to_subdomain_pair(intf)
+            new = pp.refinement.remesh_1d(old, num_nodes=n1)
+            new.compute_geometry()
+            self.mdg.replace_subdomains_and_interfaces({old: new})
+            intf.update_secondary(new, tol=1e-4)
+        self.mdg.compute_geometry()
+
+
+class RemeshedSquare(RemeshedInterfaces, SquareDomainOrthogonalFractures):
+    pass
+
+
 GEOMETRIES = {
     "square": SquareDomainOrthogonalFractures,
+    "square_remeshed": RemeshedSquare,
+    "square_nonmatching": NonMatchingSquareDomainOrthogonalFractures,
     "rect3": RectangularDomainThreeFractures,
     "cube": CubeDomainOrthogonalFractures,
 }
@@ -86,6 +114,10 @@ def build_model(case):
         "times_to_export": [],
         "time_manager": pp.TimeManager(schedule=[0.0, 8.0], dt_init=case["dt"], constant_dt=True),
     }
+    for k in ("num_nodes_mortar", "num_nodes_1d", "fracture_refinement_ratio",
+              "interface_refinement_ratio"):
+        if k in case:
+            params[k] = case[k]
     if case["geometry"] == "rect3":
         params["cartesian"] = case["grid_type"] == "cartesian"
     else:
@@ -175,7 +207,9 @@ class C04(Prop):
         "subdomains (C04_interface_cancels); (3) closed boundary + no external source => sum of "
         "residuals = sum of accumulation rates for every state (C04_conservation); (4) the boolean "
         "certificate cert_ok evaluated on real matrices implies these hypotheses "
-        "(C04_certificate_sound); (5) C04_deficit: when the interface flux entering the face fluxes "
+        "(C04_certificate_sound; for non-matching grids, whose projection entries are not binary "
+        "fractions, C04_certificate_tol_sound: supports exact, column sums within 1e-12, exact "
+        "balance with those column sums); (5) C04_deficit: when the interface flux entering the face fluxes "
         "differs from the one entering the lower-dimensional source, sum residual = sum acc + "
         "(received by faces) - (handed out by sources); (6) C04_adflux_conservation_refuted: the "
         "faithful model of the differentiable diffusive laws (AdTpfaFlux: interface flux applied on "
@@ -210,7 +244,11 @@ class C04(Prop):
                  "matrices + exact-fractions conservation oracle on the real residuals")
     rule = ("random configurations: physics in {SinglePhaseFlow, MassAndEnergyBalance}; geometry in "
             "{unit square with 0-2 orthogonal (intersecting) fractures, 2x1 rectangle with 0-3 "
-            "fractures meeting in one point, unit cube with 0-3 orthogonal fractures (thorough)}; "
+            "fractures meeting in one point, unit cube with 0-3 orthogonal fractures (thorough), and "
+            "NON-MATCHING 2-D grids (~1/3 of the cases, standard laws): unit square with one fracture "
+            "whose mortar grids and fracture grid are re-meshed with their own numbers of nodes "
+            "(update_mortar / replace_subdomains_and_interfaces / update_secondary), or the library's "
+            "non-matching square with 1-2 fractures and random refinement ratios}; "
             "Cartesian (quick) / simplex (thorough); constitutive laws: standard (1/2), DarcysLawAd, "
             "FouriersLawAd, both (energy); compressible and incompressible fluid; random "
             "dyadic material constants and time step; 3 (quick) / 5 (thorough) random states per "
@@ -247,7 +285,21 @@ class C04(Prop):
                 geometry = "square" if r < 0.6 else "rect3"
             else:
                 geometry = "square" if r < 0.4 else ("rect3" if r < 0.75 else "cube")
-            if geometry == "square":
+            extra = {}
+            if rng.random() < (0.35 if quick else 0.3):
+                # NON-MATCHING mortar / fracture grids (2-D, Cartesian matrix grid)
+                if rng.random() < 0.6:
+                    geometry = "square_remeshed"
+                    fr = rng.choice([[0], [1]])
+                    extra = {"num_nodes_mortar": rng.randint(3, 8), "num_nodes_1d": rng.randint(3, 7)}
+                else:
+                    geometry = "square_nonmatching"
+                    fr = rng.choice([[0], [1], [0, 1]])
+                    extra = {"fracture_refinement_ratio": rng.choice([1, 2, 3]),
+                             "interface_refinement_ratio": rng.choice([2, 3, 5])}
+                grid_type = "cartesian"
+                cell_size = rng.choice([0.5, 0.25])
+            elif geometry == "square":
                 fr = rng.choice([[], [0], [1], [0, 1], [0, 1]])
                 grid_type = "cartesian" if (quick or rng.random() < 0.5) else "simplex"
                 cell_size = rng.choice([0.5, 0.25] if quick else [0.5, 0.25, 0.25])
@@ -268,7 +320,10 @@ class C04(Prop):
             fluid, solid = self._materials(rng, incompressible=rng.random() < 0.25)
             laws = (rng.choice(["default", "default", "darcy_ad"]) if physics == "flow" else
                     rng.choice(["default", "default", "darcy_ad", "fourier_ad", "both_ad"]))
+            if extra:
+                laws = "default"     # the non-matching stream uses the standard laws
             yield {
+                **extra,
                 "physics": physics, "laws": laws, "geometry": geometry, "fractures": fr,
                 "grid_type": grid_type, "cell_size": cell_size,
                 "dt": rng.choice([0.125, 0.5, 1.0, 2.0]),
@@ -360,14 +415,15 @@ class C04(Prop):
     # ------------------------------------------------------------------ Coq tie
     def coq_case(self, case, res):
         s = structure_term(res["structure"])
-        return f"agree {s} {clist(res['evals'], evaluation_term)}"
+        exact = "false" if case["geometry"] in ("square_remeshed", "square_nonmatching") else "true"
+        return f"agree {exact} {s} {clist(res['evals'], evaluation_term)}"
 
     def coq_diag(self, case, res):
         s = structure_term(res["structure"])
         if not res["evals"]:
-            return f"cert_ok {s}"
+            return f"(cert_ok {s}, cert_ok_tol {s})"
         e = evaluation_term(res["evals"][0])
-        return f"(cert_ok {s}, model_res {s} {e})"
+        return f"(cert_ok {s}, cert_ok_tol {s}, model_src {s} {e}, model_res {s} {e})"
 
     def nontrivial(self, case, res):
         return len(case["fractures"]) > 0 and any(any(x != 0 for x in e["lam"])
